@@ -224,6 +224,9 @@ class sequence_variables:
             n = float(count)
             mean = sum / n
             sumsq = sumsq / n - mean * mean
+            if sumsq < 0:
+                # rounding: equal floats can give a tiny negative variance
+                sumsq = 0.0
             data['mean-%s' % name] = mean
             data['total-%s' % name] = sum
             data['variance-n-%s' % name] = sumsq
